@@ -147,8 +147,12 @@ def cases(draw):
         fails = [draw(st.sampled_from(partial))]
     else:
         fails = draw(st.lists(st.sampled_from(toks), min_size=1, max_size=min(3, len(toks)), unique=True))
+    # some outcomes are reported late by the worker: the job is finished (result on disk) while
+    # another completion makes the submitter poll the job states
+    hold = draw(st.lists(st.integers(1, max(2, len(toks))), max_size=3, unique=True)) \
+        if draw(st.booleans()) else []
     return dict(prog=prog, fails=sorted(fails), worker=draw(st.sampled_from(["sched"] * 5 + ["cf"])),
-                choices=draw(st.lists(st.integers(0, 7), max_size=40)), k=None)
+                choices=draw(st.lists(st.integers(0, 7), max_size=40)), k=None, hold=hold)
 
 
 _agree_cache = {}
